@@ -178,11 +178,16 @@ def gen_factory(rng):
             if rng.random() < 0.3: nodes[sp]["split_quantity"] = rng.choice([1, 2, 3])     # documented as ignored in UNPACK mode
             for _ in range(nco):
                 e = E(); links.append((e, c, sp))
+            slow_out = rng.random() < 0.45
             for jj in range(nso):
                 kk = sink(); e = E(); links.append((e, sp, kk))
                 # a non-blocking splitter with several out-edges: one of them is often congested (drops on one edge, pushes on another)
                 if not nodes[sp]["blocking"] and nso >= 2 and jj == 0 and rng.random() < 0.6:
                     edges[e].pop("delays", None); edges[e]["cap"] = 1; edges[e]["delay"] = rng.choice([4, 6, 8])
+                # a blocking splitter behind slow out-edges: every unpacked item waits for room (time is charged to BLOCKED, C17; the
+                # worker holds its slot, C08)
+                if nodes[sp]["blocking"] and slow_out:
+                    edges[e].pop("delays", None); edges[e]["cap"] = 1; edges[e]["delay"] = rng.choice([3, 5, 7])
         else:
             for _ in range(nco):
                 kk = sink(); e = E(); links.append((e, c, kk))
